@@ -196,7 +196,9 @@ def _on(flags):
 # ---------------------------------------------------------------------------
 _name_alpha = st.sampled_from(list("abUu0123AF:-._") + ["\u00e9", "\u00b7", "\u0300", "\u0132", "\u0131", "\u0133", "\u3007", "\u3021", "\u3030", "\u30fe", "\u30ff",
                                                         "\ud800", "\ufffe", "\x01", "\x7f", "<", "\"", "'", "=", "{", "}", "@", "`", "[", "^", "~", "\U0001F600",
-                                                        "\U00020000", "\U0010FFFF", "U0003A", "U0003", "U000", "UD800"])
+                                                        "\U00020000", "\U0010FFFF", "U0003A", "U0003", "U000", "UD800",
+                                                        # digits that are not ASCII digits (legal XML name characters): 'U' + five of them is no escape
+                                                        "U\u0660\u0660\u0660\u0664\u0661", "\u0660", "\u0661", "\u06f4", "\u0966", "U\u0660\u0660", "\u0e50\u0e51\u0e52"])
 _names = st.one_of(st.lists(_name_alpha, min_size=1, max_size=8).map("".join),
                    st.text(min_size=1, max_size=6).filter(lambda s: not (set(s) & set(" \t\n\f\r/>\x00"))))
 _texts = st.one_of(st.lists(st.sampled_from(["-", "--", "---", "a", " ", "- ", "\f", ">", "!", "\u00e9", "'", "\"", "\U0001F600", "\x00", "&", "U0002D"]), max_size=10).map("".join),
